@@ -28,6 +28,8 @@ def main(tier):
               'sympy: expand / cancel / together normal forms and polynomial reduction (ideal membership) for det(rot) = +-1')
     rep.gaps += ['O4 (cart2pos) and O15 (ranges of incell/inhalf) branch on / state inequalities with tolerances: checked numerically only (B)',
                  'cartrot orthogonality is part of op_ok (hypothesis), so "inv().cartrot = cartrot^T is the inverse rotation" rests on it']
+    from contracts import fresh_c
+    fresh_c.run(rep, contracts=fresh_c.CRYSTAL_CONTRACTS, class_fields=[])      # ownership (level P): the crystal shares no array with its constructor arguments
     return finish(rep, 'proof',
                   'Each identity between two routes (lattice / unit-cell / Cartesian conversions; g_pos, g_vect, g_cart, g_direc, g_tensor; products, inverses and '
                   'lattice shifts of operations; PairState.g, ClusterSite.g, fromcrys/fromcrys_latt) is discharged as "difference has normal form 0" by '
